@@ -229,8 +229,13 @@ def _src_ast(fn):
     if pre is not None:
         return pre
     src = textwrap.dedent(inspect.getsource(fn))
-    tree = ast.parse(src)
-    node = tree.body[0]
+    try:
+        tree = ast.parse(src)
+        node = tree.body[0]
+    except IndentationError:
+        # docstring lines with less indentation than the def defeat dedent()
+        tree = ast.parse('if 1:\n' + inspect.getsource(fn))
+        node = tree.body[0].body[0]
     return node
 
 
@@ -298,6 +303,7 @@ class Interp:
         fr = Frame(fn, fn.__globals__)
         fr.is_gen = any(isinstance(n, (ast.Yield, ast.YieldFrom)) for n in ast.walk(node))
         env2, pc2 = self.block(node.body, env, fr, pc)
+        self.last_locals = env2
         if fr.is_gen:
             if all(z3.is_true(c) for c, _ in fr.yields):
                 return [v for _, v in fr.yields]
@@ -685,6 +691,15 @@ class Interp:
             raise NotEncodable('unbound name %s' % e.id)
         if isinstance(e, ast.Attribute):
             o = self.eval(e.value, env, fr, pc)
+            if isinstance(o, _Super):
+                mro = o.obj.cls.__mro__
+                for k in mro[mro.index(o.owner) + 1:]:
+                    if e.attr in vars(k):
+                        m = vars(k)[e.attr]
+                        if isinstance(m, types.FunctionType):
+                            return _Bound(m, o.obj)
+                        return m
+                raise NotEncodable('super().%s' % e.attr)
             if isinstance(o, SObj):
                 at = ctx.heap[o.oid]
                 if e.attr in at:
@@ -758,10 +773,10 @@ class Interp:
         if not is_sym(i):
             if isinstance(o, (list, tuple, bytes, bytearray)) and isinstance(i, int) and not (-len(o) <= i < len(o)):
                 ctx.raises.append((pc, 'IndexError'))
-                return 0
+                raise _Dead()
             if isinstance(o, dict) and i not in o:
                 ctx.raises.append((pc, 'KeyError'))
-                return 0
+                raise _Dead()
             return o[i]
         ie = ctx.lift_int(i)
         if isinstance(o, dict):
@@ -1018,8 +1033,20 @@ class Interp:
         kwargs = {k.arg: self.eval(k.value, env, fr, pc) for k in e.keywords}
         if f in ctx.extra_calls:
             return ctx.extra_calls[f](self, args, kwargs, pc)
+        if f is super:
+            if args:
+                owner, obj = args[0], args[1]
+            else:
+                obj = env.get('self')
+                qn = getattr(fr.fn, '__qualname__', '')
+                owner = fr.globs.get(qn.split('.')[0]) if '.' in qn else None
+            if not isinstance(obj, SObj) or owner is None:
+                raise NotEncodable('super() outside a model object method')
+            return _Super(owner, obj)
         if isinstance(f, _Bound):
             return self._call_function(f.fn, [f.obj] + args, kwargs, pc)
+        if getattr(f, '__objclass__', None) is object or f is object.__init__:
+            return None
         if isinstance(f, _Closure):
             return self._call_closure(f, args, kwargs, pc)
         sym = any(_has_sym(a) for a in args) or any(_has_sym(v) for v in kwargs.values())
@@ -1179,6 +1206,11 @@ class _Closure:
     """A nested def: evaluated by inlining with the defining environment visible (read-only)."""
     def __init__(self, node, env, fr):
         self.node, self.env, self.fr = node, env, fr
+
+
+class _Super:
+    def __init__(self, owner, obj):
+        self.owner, self.obj = owner, obj
 
 
 class _Bound:
